@@ -141,6 +141,13 @@ fn slots(tx: &mut GTx) -> Vec<&mut GExpr> {
                 }
             }
             GDirective::TreasuryDonation { coin } => out.push(coin),
+            GDirective::Publish { to, amount, datum, .. } => {
+                out.push(to);
+                out.push(amount);
+                if let Some(d) = datum {
+                    out.push(d);
+                }
+            }
             _ => {}
         }
     }
